@@ -79,10 +79,11 @@
         kani::assume(n >= lo && n < hi);
         let dt = match chrono::DateTime::<chrono::Utc>::from_timestamp(n, 0) { Some(t) => t.naive_utc(), None => { kani::assume(false); unreachable!() } };
         // a clock time: seconds to that instant
-        let as_time = slice_to_unix(&Fields { time: Some((dt, tz())), date: None, date_time: None });
+        let as_time = slice_to_unix(&Fields { time: Some((dt, TimeOffset { name: String::new(), offset: kani::any() })), date: None, date_time: None });
         assert!(as_time == n, "OBL:time_as_unix_is_seconds_to_that_instant");
         // a date: seconds to midnight UTC of that date
-        let as_date = slice_to_unix(&Fields { time: None, date: Some((dt.date(), tz())), date_time: None });
+        // ... whatever zone is attached to the date
+        let as_date = slice_to_unix(&Fields { time: None, date: Some((dt.date(), TimeOffset { name: String::new(), offset: kani::any() })), date_time: None });
         assert!(as_date == n - dt.num_seconds_from_midnight() as i64, "OBL:date_as_unix_is_seconds_to_midnight_utc");
         assert!(as_date % 86400 == 0, "OBL:date_as_unix_is_whole_days");
         // time wins over date over date-time when several are present (as coded); nothing -> 0
